@@ -2,7 +2,10 @@ package sim
 
 import (
 	"crypto/sha256"
+	"encoding/base64"
+	"encoding/hex"
 	"fmt"
+	"strings"
 	"math/rand"
 
 	"verif/harness/ref"
@@ -15,6 +18,7 @@ var AttOps = []string{
 	"sign-other-bytes", "sign-digest-of-digest", "sign-prefix", "swap-non-enabled-key", "extra-sig", "missing-sig",
 	"zero-r", "zero-s", "r-ge-n", "random-bytes", "swap-two-adjacent", "twin-replaces-neighbour",
 	"sign-eth-wrapped-digest", "sign-eth-wrapped-message", "sign-sha256",
+	"text-0x-hex", "text-hex", "text-0X-HEX", "text-0x-hex-garbage", "text-base64", "text-json-string", "honest-r-looks-like-text",
 }
 
 var vValues = []byte{0, 1, 2, 3, 27, 28, 29, 30, 255}
@@ -157,6 +161,22 @@ func MutateBytes(r *rand.Rand, op string, idx int, msg []byte, att []byte, signe
 		for i := 0; i < 32; i++ {
 			sig(idx)[i] = 0xff
 		}
+	case "text-0x-hex":
+		// the attestation as the text the attestation service hands out, not as bytes
+		return []byte("0x" + hex.EncodeToString(att))
+	case "text-hex":
+		return []byte(hex.EncodeToString(att))
+	case "text-0X-HEX":
+		return []byte("0X" + strings.ToUpper(hex.EncodeToString(att)))
+	case "text-0x-hex-garbage":
+		return append([]byte("0x"+hex.EncodeToString(att)), []string{"\n", " ", "\"", "zz", "\x00"}[idx%5]...)
+	case "text-base64":
+		return []byte(base64.StdEncoding.EncodeToString(att))
+	case "text-json-string":
+		return []byte("\"0x" + hex.EncodeToString(att) + "\"")
+	case "honest-r-looks-like-text":
+		// a perfectly valid attestation in which signature idx begins with bytes that read as text ("0x", "0X", {", [")
+		copy(sig(idx), signers[idx].SignDigestWithK(ref.Keccak256(msg), ref.TextLikeNonces[r.Intn(len(ref.TextLikeNonces))]))
 	case "random-bytes":
 		n := len(att)
 		if r.Intn(3) == 0 {
